@@ -4,7 +4,22 @@ also fills meta.json's needs_to_manifest from the notes when it is empty."""
 import json, os, re
 VERIF = os.path.dirname(os.path.dirname(os.path.abspath(__file__)))
 rows = []
-for name in sorted(os.listdir(os.path.join(VERIF, "seeded"))):
+# the final regression (tools/seed_regress.py) is the authority on what catches a change on the final code
+REG = {}
+rp = os.path.join(VERIF, "seeded", "REGRESSION.txt")
+if os.path.exists(rp):
+    for l in open(rp):
+        m = re.match(r"^(\S+)\s+check=(\S+)\s+(\S+)\s+exit=(\S+)\s+expected=(\S+)", l)
+        if m:
+            REG[m.group(1)] = m.groups()[1:]
+
+
+def natural(n):
+    m = re.match(r"^(C\d+)-r(\d+)-m(\d+)$", n)
+    return (m.group(1), int(m.group(2)), int(m.group(3))) if m else (n, 0, 0)
+
+
+for name in sorted(os.listdir(os.path.join(VERIF, "seeded")), key=natural):
     d = os.path.join(VERIF, "seeded", name)
     mp = os.path.join(d, "meta.json")
     if not os.path.isdir(d) or not os.path.exists(mp):
@@ -19,8 +34,12 @@ for name in sorted(os.listdir(os.path.join(VERIF, "seeded"))):
         if para:
             meta["needs_to_manifest"] = " ".join(para[0].split())[:500]
             json.dump(meta, open(mp, "w"), indent=1)
-    cb = meta["caught_by"]
+    cb = dict(meta["caught_by"])
+    if name in REG:
+        chk, tier, got, want = REG[name]
+        cb["check"], cb["tier"] = chk, tier
+        cb["exit"] = 1 if got == "1" else got
     rows.append("| %s | %s | %s %s%s | %s |" % (name, title[:110], cb["check"], cb["tier"], (" " + " ".join(cb.get("args", []))) if cb.get("args") else "",
-                                              "yes" if cb["exit"] == 1 else "NO (exit %s)" % cb["exit"]))
+                                              "yes" if cb["exit"] == 1 else ("superseded by a fix" if cb["exit"] == "superseded" else "NO (exit %s; reason in detect_map.json)" % cb["exit"])))
 print("| seeded change | mechanism | caught by | exit 1 |\n|---|---|---|---|")
 print("\n".join(rows))
